@@ -30,7 +30,7 @@ ASSUMPTIONS = [
     "Python under an identity stub; JIT code generation is not observed",
     "ASan/UBSan instrument c_rain.c only; CPython and NumPy are uninstrumented",
 ]
-MIN_NONTRIVIAL = {"quick": 2000, "thorough": 50000}
+MIN_NONTRIVIAL = {"quick": 20000, "thorough": 150000}
 TIMEOUT = {"quick": 900, "thorough": 7200}
 
 VARIANTS = ["fast-gcc", "fast-asan", "lowmem-gcc", "lowmem-asan"]
@@ -80,7 +80,7 @@ def prepare(tier, seed):
 
 def shards(tier, seed):
     out = []
-    nslice = 2 if tier == "quick" else 8
+    nslice = 4 if tier == "quick" else 8
     for v in VARIANTS:
         for s in range(nslice):
             p = {"variant": v, "slice": s, "nslice": nslice}
@@ -157,7 +157,7 @@ def _sequences(sh, params, tier):
     s, ns = params["slice"], params["nslice"]
     idx = 0
     # -- exhaustive small alphabets ---------------------------------------------
-    plans = [(3, 8)] if tier == "quick" else [(3, 11), (5, 7), (2, 14)]
+    plans = [(3, 9), (2, 12), (4, 6)] if tier == "quick" else [(3, 11), (5, 7), (2, 15), (4, 8)]
     for nsym, maxlen in plans:
         for L in range(2, maxlen + 1):
             for w in itertools.product(range(nsym), repeat=L):
